@@ -395,6 +395,17 @@ CHECKS += [
          technique="lifted execution with solver-enumerated sample bits; z3 QF_NRA validity queries over symbolic eigenvalues per sample array"),
 ]
 
+CHECKS += [
+    dict(property_id="C69", category="other", engine=E1,
+         text="Partial (Cartesian lattices, spin models): (a) generate_lattice for chain / square / rectangle / cubic over sizes up to 5x5 and 3x3x3, open / periodic / mixed "
+              "boundaries and neighbour orders 1-2 against an independent minimal-image neighbour relation (row-major numbering) - structural comparison; (b) transverse_ising "
+              "and heisenberg with SYMBOLIC couplings (per-order lists and full coupling matrices): z3 proves every Pauli-word coefficient of the returned operator equal to the "
+              "textbook sum over the independent neighbour pairs, and Hermiticity, for all coupling values > 1e-3.",
+         note=PROOF_NOTE + " Category 'other' (partial): non-Cartesian lattices, fermionic models (fermi_hubbard, emery, haldane), kitaev and spin_hamiltonian are outside; the lattice "
+              "comparison itself involves no solver.",
+         technique="lifted execution of the Hamiltonian builders on z3 real coupling terms; z3 QF_NRA coefficient-wise equality proofs; structural comparison of lattices"),
+]
+
 _NOT_BUILT = "claimed in DESIGN.md §4 but its solver-based check is not built yet in this tree"
 NOT_APPLICABLE_REASONS = {
     "C04": "equality/hash: Python hash() of concrete payloads and tolerance-based allclose relations; no exact relation a solver can decide",
